@@ -9,8 +9,9 @@ from harness import common, tlc
 
 
 def registry():
-    from harness.props import reqwait
+    from harness.props import reqwait, errorclass
     return {
+        "C07": errorclass.check_c07,
         "C01": reqwait.check_c01,
         "C14": reqwait.check_c14,
         "C18": reqwait.check_c18,
